@@ -59,3 +59,4 @@ pub broadcast proof fn axiom_fmt_pathbuf() ensures #[trigger] vstd::std_specs::f
 pub broadcast proof fn axiom_fmt_path() ensures #[trigger] vstd::std_specs::fmt::fmt_req_all::<&std::path::Path>() {}
 #[verifier::external_body]
 pub broadcast proof fn axiom_fmt_ioerr() ensures #[trigger] vstd::std_specs::fmt::fmt_req_all::<std::io::Error>() {}
+pub assume_specification [std::time::Duration::from_secs] (_0: u64) -> std::time::Duration;
